@@ -139,7 +139,8 @@ pub fn gen_case(seed: u64, k: u64, profile: Profile) -> Case {
                 split: String::new(),
                 memo: String::new(),
             };
-            let want_sell = held > Decimal::ZERO && roll < 45;
+            // (a residue below 1e-10 shares, left by typed quantities after a split into thirds, is not sold)
+            let want_sell = held >= Decimal::new(1, 10) && roll < 45;
             if want_sell {
                 row.act = ["Sell", "sell", "SELL"][rng.gen_range(0..3)].into();
                 let q = pick_sell(&mut rng, held, profile);
@@ -300,7 +301,7 @@ fn pick_shares(rng: &mut StdRng, fractional: bool) -> Decimal {
 fn typed(q: Decimal, held: Decimal) -> Decimal {
     let t = q.round_dp_with_strategy(10, rust_decimal::RoundingStrategy::ToZero);
     if t.is_zero() {
-        held.min(q)
+        held.round_dp_with_strategy(10, rust_decimal::RoundingStrategy::ToZero)
     } else {
         t
     }
